@@ -308,6 +308,7 @@ func (s *c04sys) Final() *vk.Violation {
 
 func runC04Queue(rep *vk.Report, listName string, mk func() expiration.List, depth, nkinds int, deadline time.Time) {
 	ops := c04alphabet(nkinds)
+	wanted := replayWanted()
 	st := &c04stats{}
 	var seqs, steps atomic.Int64
 	outcomes := vk.NewSet()
@@ -318,6 +319,15 @@ func runC04Queue(rep *vk.Report, listName string, mk func() expiration.List, dep
 				continue // depth 5 is run for one sub-second offset only (cost); recorded in bounds
 			}
 			complete := Seqs(len(ops), d, true, deadline, func(seq []int) {
+				if wanted != nil {
+					names := make([]string, len(seq))
+					for i, o := range seq {
+						names[i] = ops[o].String()
+					}
+					if !replayMatch(wanted, map[string]any{"list": listName, "T_frac": frac.String(), "ops": names}) {
+						return
+					}
+				}
 				s := &c04sys{q: ack.VerifNewQueue(mk()), T: T, cur: map[int]*c04reg{}, stats: st}
 				seqs.Add(1)
 				for i, oi := range seq {
